@@ -33,11 +33,12 @@ if case["kind"] == "beam":
     print("errors relative to the largest translation / rotation", r["err_rel"])
     bad = max(r["err_rel"].values()) > 1e-9 or max(list(r["post"].values()) + [0.0]) > 1e-9
 else:
+    T9 = 1e-9 * max(1.0, r.get("coord_conditioning", 1.0))   # conditioning-aware tolerance (see props/C01.py)
     print("interior nodes:", r["n_interior"], " max |u - u_lin| =", r["err_u_interior"], " scale", r["scale_u"])
-    bad = not (r["err_u_interior"] <= 1e-9 * r["scale_u"])
+    bad = not (r["err_u_interior"] <= T9 * r["scale_u"])
     if "energy" in r:
         print("u'Ku of the linear field", r["energy"], "exact thickness*measure*density", r["energy_exact"], " residual at interior dofs / scale", r["residual_interior"] / r["residual_scale"])
-        bad = bad or abs(r["energy"] - r["energy_exact"]) > 1e-9 * abs(r["energy_exact"]) or r["residual_interior"] > 1e-9 * r["residual_scale"]
+        bad = bad or abs(r["energy"] - r["energy_exact"]) > T9 * abs(r["energy_exact"]) or r["residual_interior"] > T9 * r["residual_scale"]
     pre = r.get("pre") or {}
     for mv, sp in pre.get("moves_log", []):
         if sp > 1e-12:
@@ -48,18 +49,18 @@ else:
                 print("read-only call", q, "changed node coordinates by", ch); bad = True
     if "requery_err_u" in r:
         print("patch test repeated after the read-only queries: nodes", r["requery_err_u"], "strain", r["requery_err_strain"], "coordinates changed by", r["requery_coord_change"])
-        bad = bad or r["requery_err_u"] > 1e-9 * r["scale_u"] or r["requery_coord_change"] != 0.0
+        bad = bad or r["requery_err_u"] > T9 * r["scale_u"] or r["requery_coord_change"] != 0.0
     if case["phys"] == "elastic" and not r.get("assemble_only"):
         print("strain error", r["err_strain_comp"], "scale", r["scale_strain"], "| stress error", r["err_stress_comp"], "scale", r["scale_stress"],
               "| Wdef", r["Wdef"], "exact", r["Wdef_exact"])
-        bad = bad or r["err_strain_comp"] > 1e-9 * r["scale_strain"] or r["err_stress_comp"] > 1e-9 * r["scale_stress"] \
-            or abs(r["Wdef"] - r["Wdef_exact"]) > 1e-9 * abs(r["Wdef_exact"]) \
-            or r["err_Strain_plain"] > 1e-9 * r["scale_strain"] or r["err_Stress_plain"] > 1e-9 * r["scale_stress"]
+        bad = bad or r["err_strain_comp"] > T9 * r["scale_strain"] or r["err_stress_comp"] > T9 * r["scale_stress"] \
+            or abs(r["Wdef"] - r["Wdef_exact"]) > T9 * abs(r["Wdef_exact"]) \
+            or r["err_Strain_plain"] > T9 * r["scale_strain"] or r["err_Stress_plain"] > T9 * r["scale_stress"]
         if "remap_err_u" in r:
             print("after a near-identity rotation (nodes moved by", r["remap_moved"], "): nodes", r["remap_err_u"], "strain", r["remap_err_strain"], "stress", r["remap_err_stress"], "Wdef", r["remap_Wdef"])
-            bad = bad or r["remap_err_u"] > 1e-9 * r["scale_u"] or r["remap_err_strain"] > 1e-9 * r["scale_strain"] or r["remap_err_stress"] > 1e-9 * r["scale_stress"] \
-                or abs(r["remap_Wdef"] - r["Wdef_exact"]) > 1e-9 * abs(r["Wdef_exact"]) \
-                or abs(r["remap_Wdef_new"] - r["remap_Wdef_new_exact"]) > 1e-9 * abs(r["remap_Wdef_new_exact"]) or r["remap_measure_err"] > 1e-9
+            bad = bad or r["remap_err_u"] > T9 * r["scale_u"] or r["remap_err_strain"] > T9 * r["scale_strain"] or r["remap_err_stress"] > T9 * r["scale_stress"] \
+                or abs(r["remap_Wdef"] - r["Wdef_exact"]) > T9 * abs(r["Wdef_exact"]) \
+                or abs(r["remap_Wdef_new"] - r["remap_Wdef_new_exact"]) > T9 * abs(r["remap_Wdef_new_exact"]) or r["remap_measure_err"] > T9
             print("  second map (affine, new simulation): Wdef", r["remap_Wdef_new"], "exact", r["remap_Wdef_new_exact"], "measure error", r["remap_measure_err"])
 sys.exit(1 if bad else 0)
 '''
@@ -327,12 +328,28 @@ def run(ctx):
         if rule_res["rule"].ok:
             geo = ["SEG2", "TRI3", "QUAD4", "TETRA4"] + (["PRISM6", "HEXA8"] if ctx.tier == "thorough" else [])
             geo = [n for n in geo if n in E]
+            vertex_of = {"SEG": "SEG2", "TRI": "TRI3", "QUAD": "QUAD4", "TETRA": "TETRA4", "HEXA": "HEXA8", "PRISM": "PRISM6"}
+            ho_all = [(n, vertex_of[n.rstrip("0123456789")]) for n in E if n.rstrip("0123456789") in vertex_of and n != vertex_of[n.rstrip("0123456789")] and vertex_of[n.rstrip("0123456789")] in E]
+            # HEXA20 / HEXA27 with 24 free vertex coordinates did not finish in 10 minutes: not run
+            ho = [t for t in ho_all if t[0] not in ("HEXA20", "HEXA27")] if ctx.tier == "thorough" else [t for t in ho_all if t[0] in ("SEG3", "TRI6", "QUAD8", "QUAD9", "TETRA10")]
             open(os.path.join(ctx.build, "Gen_RulePlan.v"), "w").write(
-                "From Coq Require Import List String.\nImport ListNotations. Open Scope string_scope.\nDefinition geo_types : list string := [%s].\n" % "; ".join('"%s"' % n for n in geo))
-            ctx.copy_props("C01/C01_rule_geo.v")
+                "From Coq Require Import List String.\nImport ListNotations. Open Scope string_scope.\nDefinition geo_types : list string := [%s].\n" % "; ".join('"%s"' % n for n in geo)
+                + "Definition geo_ho_types : list (string * string) := [%s].\n" % "; ".join('("%s", "%s")' % t for t in ho))
+            ctx.copy_props("C01/C01_rule_geo.v", "C01/C01_rule_geo_ho.v")
             ctx.coq(["Gen_RulePlan.v"], timeout=60, count=False)
             rule_res["geo"] = ctx.coq(["C01_rule_geo.v"], timeout=1200)
             rule_res["geo_types"] = geo
+            if rule_res["geo"].ok:
+                rule_res["geo_ho"] = ctx.coq(["C01_rule_geo_ho.v"], timeout=2400)
+                rule_res["geo_ho_types"] = ["%s (vertices %s)" % t for t in ho]
+        if rule_res["rule"].ok:
+            br = [n for n in (list(E) if ctx.tier == "thorough" else ["SEG2", "SEG3", "TRI3", "TRI6", "QUAD4", "QUAD8", "TETRA4"]) if n in E]
+            open(os.path.join(ctx.build, "Gen_BridgePlan.v"), "w").write(
+                "From Coq Require Import List String.\nImport ListNotations. Open Scope string_scope.\nDefinition bridge_types : list string := [%s].\n" % "; ".join('"%s"' % n for n in br))
+            ctx.copy_props("C01/C01_rule_bridge.v")
+            ctx.coq(["Gen_BridgePlan.v"], timeout=60, count=False)
+            rule_res["bridge"] = ctx.coq(["C01_rule_bridge.v"], timeout=1800)
+            rule_res["bridge_types"] = br
         if rule_res["rule"].ok:
             try:
                 from translator import hermite as T_herm
@@ -462,12 +479,15 @@ def run(ctx):
                            ("after near-identity rotation: Wdef", abs(r["remap_Wdef"] - r["Wdef_exact"]) / abs(r["Wdef_exact"])),
                            ("after near-identity affine map, new simulation: Wdef", abs(r["remap_Wdef_new"] - r["remap_Wdef_new_exact"]) / abs(r["remap_Wdef_new_exact"])),
                            ("after near-identity affine map: mesh measure", r["remap_measure_err"])]
-        bad = [(nm, v) for nm, v in checks if not (v <= TOL)]
+        # conditioning-aware tolerance: gradients are differences of coordinates, so the relative accuracy any
+        # double-precision computation can reach degrades with |x|max / (size of the part)
+        tol_c = TOL * max(1.0, r.get("coord_conditioning", 1.0))
+        bad = [(nm, v) for nm, v in checks if not (v <= tol_c)]
         margins.append(max(v for _, v in checks))
         ctx.obligation("patch test (%s)" % tag, not bad, "; ".join("%s %.2e" % x for x in checks))
         if bad:
             ctx.violation("patch:" + tag, "%s (%d nodes, %d interior): linear field not reproduced — %s (relative, tolerance 1e-9)" % (
-                tag, r["Nn"], r["n_interior"], "; ".join("%s %.3e" % x for x in bad)), rep, True)
+                tag, r["Nn"], r["n_interior"], "; ".join("%s %.3e" % x for x in bad) + " [tolerance 1e-9 x coordinate conditioning %.1f]" % max(1.0, r.get("coord_conditioning", 1.0))), rep, True)
     th_rule.join()
     if "dump_error" in rule_res:
         ctx.obligation("C01_rule.v inputs", False, rule_res["dump_error"])
@@ -483,6 +503,16 @@ def run(ctx):
         if not rule_res["geo"].ok:
             ctx.violation("proof-broken:C01_rule_geo.v", "C01_rule_geo.v no longer checks: for some vertex-only element type the rule selected for stiffness integrals does not integrate every xi-monomial of (adj F grad N_i)_k exactly, so int_e dN_i/dx is not exact on non-affine straight-sided elements: " + ((rule_res["geo"].log.strip().splitlines() or ["?"])[-1][:200]),
                           {"obligation": "C01_rule_geo.v", "log": rule_res["geo"].log[-2500:]}, found_input=False)
+    if "bridge" in rule_res:
+        ctx.cov["code_quadrature_of_dN_proved_exact_for"] = rule_res["bridge_types"]
+        if not rule_res["bridge"].ok:
+            ctx.violation("proof-broken:C01_rule_bridge.v", "C01_rule_bridge.v no longer checks: the code's quadrature sum_p w_p*dN(xi_p) of some table entry is not the exact reference integral within 1e-14*sum|c_k|: " + ((rule_res["bridge"].log.strip().splitlines() or ["?"])[-1][:200]),
+                          {"obligation": "C01_rule_bridge.v", "log": rule_res["bridge"].log[-2500:]}, found_input=False)
+    if "geo_ho" in rule_res:
+        ctx.cov["rule_exact_for_straight_sided_high_order"] = rule_res["geo_ho_types"]
+        if not rule_res["geo_ho"].ok:
+            ctx.violation("proof-broken:C01_rule_geo_ho.v", "C01_rule_geo_ho.v no longer checks: for some straight-sided higher-order element the rule selected for stiffness integrals does not integrate every xi-monomial of (adj F grad N_i)_k exactly: " + ((rule_res["geo_ho"].log.strip().splitlines() or ["?"])[-1][:200]),
+                          {"obligation": "C01_rule_geo_ho.v", "log": rule_res["geo_ho"].log[-2500:]}, found_input=False)
     if "hermite_error" in rule_res:
         ctx.violation("translate-hermite", "translator rejected the Hermite tables: " + rule_res["hermite_error"], {"construct": rule_res["hermite_error"]}, found_input=False)
     elif "hermite" in rule_res and not rule_res["hermite"].ok:
